@@ -23,8 +23,13 @@ def run(tier, seed, verdict):
     # random walks over create / delete churn (TLC -simulate): names re-used after deletion many times in one session
     sim = mr.ModelRun("MC_SimChurn.cfg", seed + 1, probes=("dead_ids", "lookups", "reopen", "lookups"),
                       name_pools=[0, 1, 2, 3, 4, 5], simulate="num=%d" % (60 if quick else 600), depth=32).run()
+    # link lists over a source tree whose levels re-use names: by-name lookups must find the linked entity
+    shadow = mr.ModelRun("MC_C03_shadow.cfg", seed + 2, probes=("lookups", "reopen", "lookups"), name_pools=[0, 1, 2],
+                         stride=1, accept=lambda tx: tx["act"]["name"] in ("LinkAppend", "LinkRemove")).run()
+    if not shadow.stats["replayed"]:
+        raise core.MachineryError("vacuity: no transition of the shadowed-names configuration replayed")
     foreign = 0
-    for f in run_.findings + sim.findings:
+    for f in run_.findings + sim.findings + shadow.findings:
         own = (f["stage"] in ("lookup", "ids", "init")
                or (f["stage"] == "handle" and "@pos" in f["detail"].get("gpath", ""))
                or (f["action"] in OWN_ACTIONS and f["out"] in ("ok", "refused:DuplicateName") and f["facet"] == "content"))
@@ -43,7 +48,10 @@ def run(tier, seed, verdict):
         raise core.MachineryError("vacuity: no duplicate-name refusals or no deletes explored")
     coverage = {
         "states": tlc.distinct, "transitions": run_.stats["exported"],
-        "traces_validated_against_impl": run_.stats["replayed"] - run_.stats["truncated"] + sim.stats.get("walks", 0),
+        "traces_validated_against_impl": run_.stats["replayed"] - run_.stats["truncated"] + sim.stats.get("walks", 0)
+                                         + shadow.stats["replayed"] - shadow.stats["truncated"],
+        "shadowed_names": {"config": "MC_C03_shadow.cfg", "replayed": shadow.stats["replayed"],
+                           "per_action": dict(sorted(shadow.per_action.items()))},
         "samples": run_.samples or [{"note": "no sample"}], "exhaustive": run_.stride == 1,
         "evaluations": run_.stats["replayed"], "distinct_nontrivial": run_.stats["replayed"] - run_.stats["truncated"],
         "rule": "every transition of the bounded create/delete state graph is one replay from an empty file; the "
